@@ -5,7 +5,9 @@ From Coq Require Import Reals Lra List ZArith.
 Set Warnings "-ambiguous-paths".   (* Coquelicot's Rbar coercion notice would otherwise end up in the Print Assumptions output *)
 From Coquelicot Require Import Coquelicot.
 From PV Require Import Np.NpR Gen.GenHandles Proofs.C12Handles Proofs.C12NegBinRefuted.
-From PV Require Import Base.Index Base.Sum Np.Array Model.Repr Model.C12Gcp Proofs.C12Tensor Proofs.C12TensorR Proofs.C12Mttkrps Proofs.C12Setup.
+From PV Require Import Base.Index Base.Sum Np.Array Model.Repr Model.C12Gcp Proofs.C12Tensor Proofs.C12TensorR Proofs.C12Mttkrps Proofs.C12Setup Proofs.C12GenTie.
+From PV Require Gen.GenFgSetup Gen.GenKernels.
+From PV Require Import Np.NpZ.
 Import List.   (* List.nth again in front of Coquelicot's *)
 Import ListNotations.
 Local Open Scope R_scope.
@@ -209,6 +211,38 @@ Theorem C12_setup_table :
   (forall d h, value_ok d false h = true -> valid_value d (IZR h / 2)).
 Proof. exact (conj (proj1 setup_bounds_table) (conj (proj1 (proj2 setup_bounds_table)) (conj (proj2 (proj2 setup_bounds_table)) value_ok_sound))). Qed.
 Print Assumptions C12_setup_table.
+
+(* ---- tie A for the table and for the split index: the same over the files generated from the source on this run ---- *)
+(* whatever (loss, gradient, lower bound) the GENERATED fg_setup.setup returns — any objective but negative binomial, any
+   data, any admissible parameter — the gradient is the derivative of the loss at every model value >= that bound *)
+Theorem C12_setup_generated_sound : forall o data p fh gh lb,
+  o <> GenFgSetup.NEGATIVE_BINOMIAL -> gparam_ok o p -> GenFgSetup.setup o data p = Some (fh, gh, lb) ->
+  forall x m, lb_ok lb m -> is_derive (fun m => fh x m) m (gh x m).
+Proof. exact gen_setup_sound. Qed.
+Print Assumptions C12_setup_generated_sound.
+
+(* the hand table of Proofs/C12Setup.v is the generated one: handles, bound, parameter requirement, data-check column *)
+Theorem C12_setup_table_generated : forall o p,
+  (match GenFgSetup.setup (to_gen o) None (Some p) with
+   | Some (fh, gh, lb) =>
+       (forall x m, fh x m = loss o p x m) /\ (forall x m, gh x m = grad o p x m) /\
+       lb = (if bounded_below o then GenFgSetup.Finite 0 else GenFgSetup.NegInf)
+   | None => False
+   end /\ (GenFgSetup.setup (to_gen o) None None = None <-> needs_param o = true)) /\
+  (forall d : GenFgSetup.datachk,
+     GenFgSetup.setup (to_gen o) (Some d) (Some p) = None <->
+     match data_check o with
+     | AnyData => true | Binary => GenFgSetup.valid_binary d | Natural => GenFgSetup.valid_natural d
+     | Positive => GenFgSetup.valid_nonneg d
+     end = false).
+Proof. exact (fun o p => conj (hand_table_is_generated o p) (hand_data_check_is_generated o p)). Qed.
+Print Assumptions C12_setup_table_generated.
+
+(* the split index of C12_mttkrps_py_eq is the one the GENERATED tensor.min_split returns *)
+Theorem C12_min_split_generated : forall s : shape, s <> nil -> Forall (fun d => 1 <= d)%nat s ->
+  GenKernels.min_split (map Z.of_nat s) = NpZ.Ok (Z.of_nat (min_split s)).
+Proof. exact min_split_is_generated. Qed.
+Print Assumptions C12_min_split_generated.
 
 (* non-vacuity: the domain hypotheses are satisfiable and the derivative values are not trivially 0 *)
 Example C12_example_poisson : is_derive (fun m => poisson 3 m) 2 (1 - 3 / (2 + EPS)).
